@@ -39,6 +39,8 @@ class StdVector(Plugin):
         return None
 
     def type_for(self, name, unit):
+        m = re.match(r'^(?:const )?__gnu_cxx::__alloc_traits<std::allocator<(.*)>, \1 ?>::(?:value_type|reference|const_reference)$', name.strip())
+        if m: return unit.ctype(m.group(1))           # what vector::operator[] yields, spelled through the allocator traits
         if name.endswith('::value_type') or name.endswith('::reference') or name.endswith('::const_reference'):
             el = self.elem_of(name.rsplit('::', 1)[0])
             if el is not None: return unit.ctype(el)
@@ -74,6 +76,14 @@ class StdVector(Plugin):
         t = node.get('type', {})
         for qt in (t.get('desugaredQualType'), t.get('qualType')):
             if qt and self.iter_elem(qt): return ('reverse' if 'reverse_iterator<' in qt else 'forward'), self.iter_elem(qt)
+        return None
+
+    def raw_ptr_elem(self, node):
+        """pointee type when the node is a plain pointer to a byte/char/integer scalar (std::find over a raw range)"""
+        t = node.get('type', {})
+        for qt in (t.get('desugaredQualType'), t.get('qualType')):
+            m = re.match(r'^(const )?(uint8_t|unsigned char|char|signed char|int|unsigned int|uint16_t|uint32_t) ?\*( ?const)?$', (qt or '').strip())
+            if m: return (m.group(1) or '') + m.group(2)
         return None
 
     def _recv(self, unit, base, is_arrow):
@@ -161,9 +171,9 @@ class StdVector(Plugin):
                     unit.count_call('v_' + name)
                     return 'v_%s(%s)' % (name, self._recv(unit, base, me.get('isArrow')))
             raise Unsupported('std::%s over something other than container.begin(), container.end() (in %s)' % (name, unit.cur))
-        if name in ('find', 'find_if') and len(args) == 3 and self.node_iter(args[0]):
-            # std::find / std::find_if over vector/deque iterators: first position that matches, else last (model of the library algorithm)
-            elem = unit.ctype(self.node_iter(args[0])[1])
+        if name in ('find', 'find_if') and len(args) == 3 and (self.node_iter(args[0]) or self.raw_ptr_elem(args[0])):
+            # std::find / std::find_if over vector/deque iterators (or plain pointers to scalars): first position that matches, else last (model of the library algorithm)
+            elem = unit.ctype(self.node_iter(args[0])[1] if self.node_iter(args[0]) else self.raw_ptr_elem(args[0]))
             if name == 'find_if':
                 lam, largs, rt = unit.lift_lambda(args[2])
                 proto_l = unit.emitted_protos[lam]; ps = proto_l[proto_l.index('(') + 1:proto_l.rindex(')')]
@@ -762,6 +772,8 @@ class StdArray(Plugin):
         m = re.match(r'^std::array<(.*),\s*(\d+)(?:UL|ul)?>$', canon_type(name))
         return (m.group(1).strip(), int(m.group(2))) if m else None
     def type_for(self, name, unit):
+        m = re.match(r'^(?:const )?__gnu_cxx::__alloc_traits<std::allocator<(.*)>, \1 ?>::(?:value_type|reference|const_reference)$', name.strip())
+        if m: return unit.ctype(m.group(1))           # what vector::operator[] yields, spelled through the allocator traits
         if name.endswith('::value_type') or name.endswith('::reference') or name.endswith('::const_reference'):
             pr = self.parse(name.rsplit('::', 1)[0])
             if pr: return unit.ctype(pr[0])
